@@ -168,3 +168,12 @@ def all_graphs(n):
     pairs = [(i, j) for i in range(n) for j in range(i + 1, n)]
     for mask in range(1 << len(pairs)):
         yield n, [(u, v, 1) for k, (u, v) in enumerate(pairs) if mask >> k & 1]
+
+
+def int_domain_ok(g, approx_k=None):
+    """graphs whose weights may be given to the library as `int`: every sum the algorithms can form must fit, i.e. (i) the intermediate path sums of
+    the searches (at most a few times S = sum of all weights) and (ii) the returned TOTAL weight of the basis, which is a sum over m-n+c cycles each of
+    weight <= S (for the approximate algorithms each dropped-edge cycle weighs <= S as well).  Sufficient: (m + 4) * S <= INT_MAX."""
+    n, es = g
+    S = sum(w for _, _, w in es)
+    return (len(es) + 4) * S < 2 ** 31 - 1
